@@ -47,6 +47,27 @@ class EvalGlobals(dict):
         raise KeyError(name)
 
 
+class GatedConfig:
+    ''' What the code of an eval node sees as ``ayns.cfg``: the (partially) evaluated config,
+        with every access going through the same safety gate as the lookup of a bare name.
+    '''
+    def __init__(self, ctx, node, path):
+        self.__dict__.update({ '_ctx': ctx, '_node': node, '_path': path })
+
+    def __getitem__(self, name):
+        with self._ctx.require_all_safe(self._node, self._path):
+            return self._ctx.ecfg[name]
+
+    def __getattr__(self, name):
+        return self[name]
+
+    def __contains__(self, name):
+        return name in self._ctx.cfg
+
+    def __iter__(self):
+        return iter(self._ctx.cfg)
+
+
 class EvalNode(ConfigScalar(str)):
     ''' Implements ``!eval`` tag.
 
@@ -94,7 +115,7 @@ class EvalNode(ConfigScalar(str)):
         gbls = EvalGlobals(ctx.ecfg, ctx, self, path)
         gbls['ayns'] = Bunch({
             'ctx': ctx,
-            'cfg': ctx.ecfg
+            'cfg': GatedConfig(ctx, self, path)
         })
         gbls.update(ctx.get_eval_symbols())
         gbls.update({ '__name__': eval_module_name, '__file__': self._source_file })
